@@ -182,7 +182,7 @@ func startServer() (*testServer, error) {
 	ts.conn = conn
 	ts.client = openfgav1.NewOpenFGAServiceClient(conn)
 	hc := healthv1pb.NewHealthClient(conn)
-	deadline := time.Now().Add(60 * time.Second)
+	deadline := time.Now().Add(time.Duration(float64(90*time.Second) * loadFactor()))
 	for {
 		select {
 		case err := <-ts.done:
@@ -198,7 +198,7 @@ func startServer() (*testServer, error) {
 		}
 		if time.Now().After(deadline) {
 			cancel()
-			return nil, fmt.Errorf("server not healthy after 60s: %v", err)
+			return nil, fmt.Errorf("server not healthy in time: %v", err)
 		}
 		time.Sleep(50 * time.Millisecond)
 	}
